@@ -691,6 +691,51 @@ def h_isclose(I, a, k, st, n):
     return _ew2(f, a[0], a[1], st)
 
 
+def _binary(sym):
+    def h(I, a, k, st, n):
+        if len(a) != 2: return Opaque(f"numpy ufunc {sym} arguments")
+        q = lift2(sym, a[0], a[1])
+        out = k.get("out"); where = k.get("where")
+        if where is None: return q
+        if out is None: out = Opaque("ufunc(where=) without out= leaves garbage")
+        return h_where(I, [where, q, out], {}, st, n)
+    return h
+
+
+def h_matmul(I, a, k, st, n):
+    if len(a) != 2 or k: return Opaque("matmul arguments")
+    return I.binop(ast.MatMult(), a[0], a[1])
+
+
+def h_logical(op):
+    def h(I, a, k, st, n):
+        if len(a) != 2 or k: return Opaque("logical ufunc arguments")
+        return I.binop(ast.BitAnd() if op == "and" else ast.BitOr(), a[0], a[1])
+    return h
+
+
+def h_flatnonzero(I, a, k, st, n):
+    m = a[0]
+    if isinstance(m, LocalArr): m = _arr(m, st)
+    if as_arr(m) is None: return Opaque("flatnonzero of non-array")
+    return lm.MaskIdx(m)
+
+
+def h_count_nonzero(I, a, k, st, n):
+    m = a[0]
+    if isinstance(m, LocalArr): m = _arr(m, st)
+    if as_arr(m) is None or k: return Opaque("count_nonzero of non-array")
+    return lm.mask_count(m)
+
+
+_reg("numpy.flatnonzero", h_flatnonzero)
+_reg("numpy.count_nonzero", h_count_nonzero)
+_reg("numpy.multiply", _binary("*"))
+_reg("numpy.add", _binary("+"))
+_reg("numpy.subtract", _binary("-"))
+_reg("numpy.matmul numpy.dot", h_matmul)
+_reg("numpy.logical_and", h_logical("and"))
+_reg("numpy.logical_or", h_logical("or"))
 _reg("numpy.isclose", h_isclose)
 _reg("numpy.where", h_where)
 _reg("numpy.select", h_select)
